@@ -31,6 +31,12 @@ func VerifTeardown() {
 				return
 			}
 		}
+		if verifParam("barepayload", 0) == 1 && verifChoice("bare", 2) == 1 {
+			// a data message without payload
+			if !up.vSend([]byte(`{"type":"data","id":"1"}`)) {
+				return
+			}
+		}
 		switch upEnd {
 		case 0:
 			up.vSend([]byte(`{"type":"complete","id":"1"}`))
@@ -66,7 +72,7 @@ func VerifTeardown() {
 	}
 	desc := "client script:"
 	for _, st := range script {
-		desc += " " + []string{"start-s1", "stop-s1", "stop-unknown", "terminate", "malformed", "bogus", "start-s2", "init-again"}[st]
+		desc += " " + []string{"start-s1", "stop-s1", "stop-unknown", "terminate", "malformed", "bogus", "start-s2", "init-again", "start-without-payload"}[st]
 	}
 	verifLog(desc + "; upstream: " + verifItoa(nEvents) + " events then " + []string{"complete", "error", "disconnect", "stays open"}[upEnd])
 	go func() {
@@ -97,12 +103,18 @@ func VerifTeardown() {
 			case 7:
 				// connection_init once more, on a connection that is already running
 				m = vClientMsg("connection_init", "", "")
+			case 8:
+				// an incomplete message: start without a payload
+				m = []byte(`{"type":"start","id":"s3"}`)
 			}
 			if !client.vSend(m) {
 				return
 			}
 		}
-		// abrupt disconnect at the end of the script
+		// abrupt disconnect at the end of the script; with a reset the gateway's writes fail from here on
+		if verifParam("mayreset", 0) == 1 && verifChoice("reset", 2) == 1 {
+			client.reset = true
+		}
 		close(client.in)
 	}()
 	f.gw.Handler(&vRecorder{}, vWsRequest())
